@@ -89,11 +89,13 @@ def parseCSteps : Nat → List String → Option (List CStep)
     | _ => none
 
 /-- the harness's content numbering: `c = v + 10·k`; `k = 0`: includes nothing; `k = 1, 3`: includes
-URL 0 (http `/aa`, by a relative / an absolute reference); `k = 2, 4`: includes URL 1 (http `/bb`) -/
+URL 0 (http `/aa`, by a relative / an absolute reference); `k = 2, 4`: includes URL 1 (http `/bb`);
+`k = 5, 6`: includes URL 3 (URL 0 with the query `?v=2`) -/
 def incOf (c : Content) : Option Url :=
   match c / 10 with
   | 1 => some ⟨0, false⟩ | 3 => some ⟨0, false⟩
   | 2 => some ⟨1, false⟩ | 4 => some ⟨1, false⟩
+  | 5 => some ⟨3, false⟩ | 6 => some ⟨3, false⟩
   | _ => none
 
 def showCResult : CResult → String
